@@ -21,6 +21,9 @@ EXPLANATION = (
     "to children. R20.6 dispatch order: no isinstance branch is shadowed by an earlier branch for a base class. Not "
     "decided: well-formedness for arbitrary `values` keys; geometric equality within the six-decimal matrix precision."
 )
+TECHNIQUE = (
+    "static analysis (no execution): writer/reader attribute-key agreement tables; reader-default vs writer skip rule; def-use roles for the inverse-viewport composition order and paint emission"
+)
 ASSUMPTIONS = [
     "Reader-side tables (tag -> class, keys read per class, defaults) are extracted from SVG.parse and property_by_values on every run.",
     "Trees built through constructors whose Group/Use nodes carry a transform that was not folded into the children are a known finding (R20.3b).",
